@@ -741,3 +741,36 @@ def l9(ctx):
 
 
 RULES.append(l9)
+
+
+@rule("L10", doc="every pattern position accepts the substitution suffix: parse_pattern_nosubst — the parser WITHOUT the `[x := t]` loop — is reached from parse_pattern only (a who-may-call rule: an argument position or multi-pattern side parsed by it directly cannot read back `nil[(var $x) := ?t]`, which the printer writes for a substitution on a leaf)", once=True)
+def l10(ctx):
+    crate = ctx.lib("default")
+    ns = [b for b in crate.free_fn("parse_pattern_nosubst") if (b.file or "").endswith("parse.rs")]
+    if not ns:
+        ctx.ok("nosubst-only-from-parse-pattern:absent", "there is no separate suffix-less pattern parser")
+        return
+    known = C._anchor_names(crate)
+    ids = {b.id for b in ns}
+    def callers_of(target_ids):
+        out = []
+        for b in crate.bodies.values():
+            for c in b.calls:
+                if c.callee and c.callee.target in target_ids and not b.blocks[c.bb]["cleanup"]:
+                    out.append((crate.root_of(b), b, c))
+        return out
+    n = 0
+    for root, b, c in callers_of(ids):
+        n += 1
+        ok = root.name in ("parse_pattern", "parse_pattern_nosubst")
+        if not ok and root.name not in known:
+            # a new private helper: fine if it is itself only used by parse_pattern
+            cs = callers_of({root.id})
+            ok = bool(cs) and all(r2.name in ("parse_pattern", "parse_pattern_nosubst") or r2.id == root.id for r2, _, _ in cs)
+        ctx.check(ok, "nosubst-only-from-parse-pattern:" + (root.name or "?"), "parse_pattern_nosubst is called from %s" % root.name,
+                  "%s calls parse_pattern_nosubst directly: what it parses there cannot carry a `[x := t]` suffix, although the printer writes one for a substitution pattern in that position — printing and parsing back fails with a ParseError" % C.short(root.id),
+                  where_of(b, c.bb))
+    ctx.floor("call sites of parse_pattern_nosubst", n, 1)
+
+
+RULES.append(l10)
